@@ -309,3 +309,148 @@ Proof.
     apply Habs; auto.
   - rewrite !map_length in H. rewrite spec_serial_handle in H. unfold oid in H. exists order. exact H.
 Qed.
+
+(* ------------------------------------------------------------------ C09_serializable instantiated with [handle] *)
+(* requests that do not pass the gate (no user): one critical section each, [handle] is the specification *)
+Theorem handlers_serializable cfg (reqs : list (policy * request)) s0 sch c' rs :
+  let progs := map (fun pr => hsec cfg (fst pr) (snd pr)) reqs in
+  exec sch (init s0 progs) = Some c' -> finished c' rs ->
+  let order := acq_order sch (init s0 progs) in
+  Permutation order (seq 0 (length reqs)) /\
+  subseq order sch /\
+  (forall a b, In a order -> In b order -> a <> b -> precedes sch a b -> before a b order) /\
+  fst (serial progs order s0) = fst c' /\
+  map fst (snd (serial progs order s0)) = order /\
+  (forall i r, In (i, r) (snd (serial progs order s0)) -> nth_error rs i = Some r) /\
+  (forall i pr s, nth_error reqs i = Some pr ->
+     run_prog (nth i progs (Ret (S500, PNone))) s = handle cfg (fst pr) None s (snd pr)).
+Proof.
+  intros progs He Hfin order.
+  assert (Hwf : Forall (wf oid None) progs).
+  { apply Forall_forall. intros p Hp. apply in_map_iff in Hp. destruct Hp as [pr [<- _]]. apply hsec_wf. }
+  assert (Hone : Forall (one_section (St:=store) (Resp:=response)) progs).
+  { apply Forall_forall. intros p Hp. apply in_map_iff in Hp. destruct Hp as [pr [<- _]]. apply hsec_one. }
+  destruct (serializable store response store oid progs s0 sch c' rs Hwf Hone He Hfin) as (H1 & H2 & H3 & H4 & H5 & H6).
+  unfold progs in H1. rewrite map_length in H1.
+  repeat (split; [assumption|]).
+  intros i pr s Hn. unfold progs.
+  rewrite (nth_indep _ _ (hsec cfg (fst pr) (snd pr))).
+  - rewrite (map_nth (fun pr => hsec cfg (fst pr) (snd pr)) reqs pr i). 
+    rewrite (nth_error_nth _ _ _ Hn). rewrite run_prog_hsec. destruct pr as [pol r]. destruct r; reflexivity.
+  - rewrite map_length. apply nth_error_Some. congruence.
+Qed.
+
+(* ------------------------------------------------------------------ the unchanged gate is refuted (DESIGN F8) *)
+Definition rf_cfg : config := mkConfig true true.
+Definition rf_pre : predef := [(20, TCal, [(1, 1)])].                        (* one predefined calendar "c0" *)
+Definition rf_pol : policy := pol_of_table [([10], [82; 87]); ([10; 20], [114; 119])].   (* owner_only: RW, rw *)
+Definition rf_event : obj := mkObj 0 CEvent 0.
+Definition rf_reqs : list breq :=
+  [ (Some 10, rf_pol, RPut [10; 20; 100] CTNone (BCal [rf_event]) CNone false);     (* A: PUT an event *)
+    (Some 10, rf_pol, RPropfind [10] true) ].                                       (* B: a PROPFIND of the same user *)
+(* B checks for the home (absent); A runs completely (creates the home, stores the event, answers 201);
+   B takes the exclusive lock and creates home and predefined calendar again; B lists its home. *)
+Definition rf_sched : list nat :=
+  ([1;1;1;1] ++ [0;0;0;0; 0;0;0; 0;0;0;0] ++ [1;1;1; 1;1;1;1])%nat.
+
+Theorem home_creation_refuted :
+  let progs := map (breq_prog false rf_pre rf_cfg) rf_reqs in
+  exists c' rs,
+    exec rf_sched (init empty_store progs) = Some c' /\ finished c' rs /\
+    (* A's write was acknowledged ... *)
+    nth_error rs 0 = Some (S201, PEtag (EtItem rf_event)) /\
+    (* ... and is gone at the end, although the only other request is a read *)
+    resolve (fst c') [10; 20; 100] = NNothing /\
+    (* no one-at-a-time execution explains it *)
+    ~ exists order, Permutation order (seq 0 2) /\
+        fst (serial_handle rf_pre rf_cfg rf_reqs order empty_store) = fst c' /\
+        (forall i r, In (i, r) (snd (serial_handle rf_pre rf_cfg rf_reqs order empty_store)) -> nth_error rs i = Some r).
+Proof.
+  intro progs. eexists. eexists. split; [vm_compute; reflexivity|]. split.
+  { unfold finished. cbn [snd]. instantiate (1 := [_; _]). cbn [map]. reflexivity. }
+  split; [reflexivity|]. split; [vm_compute; reflexivity|].
+  intros [order [Hp [Hst _]]]. cbn [seq] in Hp. apply Permutation_sym in Hp.
+  apply Permutation_length_2_inv in Hp. destruct Hp as [-> | ->]; vm_compute in Hst; discriminate Hst.
+Qed.
+
+(* with the re-check the same schedule is harmless: the event survives *)
+Example home_creation_repaired :
+  let progs := map (breq_prog true rf_pre rf_cfg) rf_reqs in
+  exists c', exec rf_sched (init empty_store progs) = Some c' /\
+             exists pc, resolve (fst c') [10; 20; 100] = NItem pc rf_event.
+Proof. intro progs. eexists. split; [vm_compute; reflexivity|]. eexists. vm_compute. reflexivity. Qed.
+
+(* ------------------------------------------------------------------ gate and handler are separate transactions *)
+(* Also with the repaired gate a request is not ONE transaction: the home check of B, then a DELETE of the home
+   by another client of the same user, then B's handler.  B answers 409 although in both one-at-a-time
+   orders it answers 201.  (No data is lost and no partial state is visible; the unit of atomicity is the
+   critical section.) *)
+Definition sp_pol : policy := pol_of_table [([10], [82; 87]); ([10; 21], [114; 119])].
+Definition sp_store : store := set_coll empty_store [10] (mkColl TNone [] []).     (* the home of user 10 exists *)
+Definition sp_reqs : list breq :=
+  [ (Some 10, sp_pol, RDelete [10] CNone);               (* A: DELETE the home collection *)
+    (Some 10, sp_pol, RMkcalendar [10; 21] XNone) ].      (* B: MKCALENDAR below it *)
+Definition sp_sched : list nat := ([1;1;1;1] ++ [0;0;0;0; 0;0;0;0] ++ [1;1;1;1])%nat.
+
+Theorem gate_handler_split_refuted :
+  let progs := map (breq_prog true [] rf_cfg) sp_reqs in
+  exists c' rs,
+    store_inv sp_store /\
+    exec sp_sched (init sp_store progs) = Some c' /\ finished c' rs /\
+    nth_error rs 1 = Some (S409, PNone) /\
+    ~ exists order, Permutation order (seq 0 2) /\
+        (forall i r, In (i, r) (snd (serial_handle [] rf_cfg sp_reqs order sp_store)) -> nth_error rs i = Some r).
+Proof.
+  intro progs. eexists. eexists. split.
+  { apply (store_inv_add empty_store [10] _ (mkColl TNone [] [])); try reflexivity.
+    - apply empty_store_inv.
+    - discriminate.
+    - apply coll_inv_empty. }
+  split; [vm_compute; reflexivity|]. split.
+  { unfold finished. cbn [snd]. instantiate (1 := [_; _]). cbn [map]. reflexivity. }
+  split; [reflexivity|].
+  intros [order [Hp Hr]]. cbn [seq] in Hp. apply Permutation_sym in Hp.
+  apply Permutation_length_2_inv in Hp. destruct Hp as [-> | ->].
+  - specialize (Hr 1%nat (S201, PNone)). vm_compute in Hr. assert (E : Some (S409, PNone) = Some (S201, PNone)) by (apply Hr; right; left; reflexivity). discriminate E.
+  - specialize (Hr 1%nat (S201, PNone)). vm_compute in Hr. assert (E : Some (S409, PNone) = Some (S201, PNone)) by (apply Hr; left; reflexivity). discriminate E.
+Qed.
+
+(* ------------------------------------------------------------------ the hypotheses are satisfiable *)
+(* a state with a cache that readers write: the data is the first component *)
+Definition ex_st := (nat * nat)%type.
+Definition ex_reader : prog ex_st nat :=
+  Tau (Acq Rd (Step (fun s => (fst s, S (snd s))) (fun s => Rel (Ret (fst s))))).       (* read, bump the cache *)
+Definition ex_writer (v : nat) : prog ex_st nat :=
+  Acq Wr (Step (fun s => (fst s + v, 0)%nat) (fun s => Rel (Tau (Ret (fst s))))).      (* add v, wipe the cache *)
+
+Example serializable_hypotheses_hold :
+  Forall (wf (fun s : ex_st => fst s) None) [ex_reader; ex_writer 5; ex_reader] /\
+  Forall (one_section (St:=ex_st) (Resp:=nat)) [ex_reader; ex_writer 5; ex_reader] /\
+  (* an admitted schedule in which the two readers overlap each other *)
+  exists c', exec [0; 0; 2; 0; 2; 2; 0; 2; 1; 1; 1; 1]%nat (init (3, 0)%nat [ex_reader; ex_writer 5; ex_reader]) = Some c' /\
+             finished c' [3; 3; 3]%nat.
+Proof.
+  split; [|split].
+  - assert (Hr : wf (fun s : ex_st => fst s) None ex_reader).
+    { cbn. split; [reflexivity|]. split; [eexists; split; [reflexivity|]; intros _ s; reflexivity|]. split.
+      - intros [a b] [c d]; cbn; intros ->; split; reflexivity.
+      - intros s. split; [discriminate|reflexivity]. }
+    assert (Hw : forall v, wf (fun s : ex_st => fst s) None (ex_writer v)).
+    { intro v. cbn. split; [reflexivity|]. split; [eexists; split; [reflexivity|]; discriminate|]. split.
+      - intros [a b] [c d]; cbn; intros ->; split; reflexivity.
+      - intros s. split; [discriminate|reflexivity]. }
+    constructor; [exact Hr|]. constructor; [apply Hw|]. constructor; [exact Hr|]. constructor.
+  - assert (H1 : one_section ex_reader) by (eexists; eexists; split; [reflexivity|]; intros s; eexists; reflexivity).
+    assert (H2 : one_section (ex_writer 5)) by (eexists; eexists; split; [reflexivity|]; intros s; eexists; reflexivity).
+    constructor; [exact H1|]. constructor; [exact H2|]. constructor; [exact H1|]. constructor.
+  - eexists. split; [vm_compute; reflexivity|]. reflexivity.
+Qed.
+
+Example gate_hypotheses_hold :
+  store_inv empty_store /\ (forall r, In r [RPut [10; 20; 100] CTNone (BCal [rf_event]) CNone false; RPropfind [10] true] -> spares_home 10 r) /\
+  exists c', exec rf_sched (init empty_store (map (breq_prog true rf_pre rf_cfg) rf_reqs)) = Some c'.
+Proof.
+  split; [apply empty_store_inv|]. split.
+  - intros r [<-|[<-|[]]]; exact I.
+  - eexists. vm_compute. reflexivity.
+Qed.
